@@ -31,7 +31,8 @@ def cfgOf (s : St) : Cfg :=
 
 def exCfgOf (s : St) : Ex.Cfg :=
   { typeKnown := lookup s.known
-    parsePayload := fun _ p => lookup s.verdicts p }
+    -- the harness keys the verdict of the example codec by type name, NUL, payload (one payload may parse as one type only)
+    parsePayload := fun t p => lookup s.verdicts (t ++ [0] ++ p) }
 
 /-- take the `< ...` lines recorded before this operation into the tables -/
 def absorbEnv (s : St) : St × Option Bytes × Option Bytes :=
